@@ -162,8 +162,9 @@ class Repo:
         if not self.modules:
             raise AnalysisError('no python sources found under ' + self.root)
         # single-use private helpers are put back into their only caller ("extract method" undone; exact, see gxstat/absorb.py)
-        from .absorb import absorb_single_use_procedures, inline_expression_helpers
+        from .absorb import absorb_single_use_procedures, inline_expression_helpers, inline_model_handles
         self.absorbed: List[str] = absorb_single_use_procedures(self)
+        self.handles: List[str] = inline_model_handles(self)          # after the helpers are back in their callers
         self.absorbed += ['expression helper ' + x for x in inline_expression_helpers(self)]
         # returned variables of the functions rules are written against get their canonical names back (gxstat/roles.py)
         from .roles import normalise_return_names
@@ -298,7 +299,8 @@ class Repo:
         nf = sum(1 for _ in self.all_functions())
         return {'files': len(self.modules), 'classes': sum(len(v) for v in self.classes.values()), 'functions': nf,
                 'single_use_helpers_put_back_into_their_caller': list(getattr(self, 'absorbed', [])),
-                'returned_variables_renamed_by_role': list(getattr(self, 'role_renamed', []))}
+                'returned_variables_renamed_by_role': list(getattr(self, 'role_renamed', [])),
+                'model_part_handles_inlined': list(getattr(self, 'handles', []))}
 
 
 # ---------------------------------------------------------------------- generic AST helpers
